@@ -29,6 +29,7 @@ inductive V where
   | asU32 (e : V)
   | dataLen                    -- `asm.data.len()`
   | add (a b : V)
+  | bin (op : String) (a b : V)  -- `sub`, `shl`, `shr`, `band`, `bor` on integers (bit operations on non-negative operands only)
   | matchInt (e : V) (arms : List (Int × Int)) (dflt : Option Int)   -- `none` = `unreachable!()`
   deriving Repr, Inhabited
 
